@@ -81,7 +81,7 @@ Qed.
 (* ---------- the pool is left empty: at the step at which pipeline() returns, the task set counts no task (outstandingTaskCount_ =
    pout - gx = 0), nothing is queued, and the only wrappers still on some thread's stack are those of skipped generator tasks whose
    functor is being destroyed (program point PEnd: the CompletionGuard counts the latch down, then workRemaining_ is decremented;
-   the guard shares ownership of the completion event, /repo 81d0d61) ---------- *)
+   the guard shares ownership of the completion event, /repo 0db1b9f) ---------- *)
 Definition m_gx : meas := MS (fun f => match f with FPool _ PEnd => 1 | _ => 0 end) (fun _ _ => 0) (fun _ => 0) (fun _ => 0).
 Definition m_busy : meas := MS (fun f => match f with FPool _ PEnd => 0 | FPool _ _ => 1 | _ => 0 end) (fun _ _ => 0) (fun _ => 1) (fun _ => 0).
 
@@ -202,7 +202,7 @@ Proof.
   apply existsb_exists in D. destruct D as (e & He & Ke). exists e. split; [exact He | apply Z.eqb_eq; exact Ke].
 Qed.
 
-(* (2) REPAIRED (/repo 1a07319), former witness of "pipeline() never returns": 2 generator instances, 1 item, a serial sink that
+(* (2) REPAIRED (/repo 0db1b9f), former witness of "pipeline() never returns": 2 generator instances, 1 item, a serial sink that
    throws.  The second instance is skipped by the cancelled wrapper, but the CompletionGuard it owns by value now counts the latch
    down when the skipped functor is destroyed: the run returns, rethrowing exception 1000. *)
 Definition c_hang : cfg := CFG 2 64 2 1 (-1) [SC 1 false [] [0]] false [(true, 0)].
@@ -218,7 +218,7 @@ Proof. vm_compute. repeat split; reflexivity. Qed.
 Theorem latch_owned c s : (0 < nstages c)%nat -> reach (mstep c) (init c) s -> compl (sh s) = total (m_genc c) s.
 Proof. intros H0 R. destruct (acct_invariants c s H0 R) as (_ & _ & _ & [G _]). exact G. Qed.
 
-(* (3) REPAIRED (/repo f2764c3), former witness of "the exception leaves pipeline() through execute()": poolLoadFactor_ 0, the second
+(* (3) REPAIRED (/repo eb2d079), former witness of "the exception leaves pipeline() through execute()": poolLoadFactor_ 0, the second
    generator instance runs inline inside execute() and the generator throws at once.  The functor now records the exception in the
    task set; execute() goes on, wait() rethrows it: the run returns with exception 0 and nothing is left in the pool. *)
 Definition c_esc : cfg := CFG 3 0 3 3 0 [SC 1 false [] []] false [(true, 0)].
